@@ -1,0 +1,46 @@
+//go:build verif
+
+// Routing memory contracts (C13) for the govc verifier (see /verif/DESIGN.md). Comment-only.
+
+package routing
+
+// A transmission reported as failed makes exactly that peer eligible again: the first entry equal to the failed
+// sender's peer is removed from the sent list, every other entry is kept in order; a peer that is not in the list
+// leaves the list as it is.
+// govc:func (*EpidemicRouting).ReportFailure property C13
+//@ requires er.c != nil && er.c.store != nil && sender != nil
+//@ let props := uf("propsOf", "map[string]interface{}", er.c.store, bp.Id)
+//@ let key := "routing/epidemic/sent"
+//@ requires has(props, key) && is(props[key], []bpv7.EndpointID)
+//@ ghost w int
+//@ assigns mapof(props), elems(props[key].([]bpv7.EndpointID)), er.c.store.$qok
+//@ ensures has(props, key) && is(props[key], []bpv7.EndpointID)
+//@ ensures (forall j int :: 0 <= j && j < old(len(props[key].([]bpv7.EndpointID))) ==> old(props[key].([]bpv7.EndpointID)[j]) != sender.GetPeerEndpointID()) ==> len(props[key].([]bpv7.EndpointID)) == old(len(props[key].([]bpv7.EndpointID)))
+//@ ensures er.c.store.$qok && 0 <= w && w < old(len(props[key].([]bpv7.EndpointID))) && old(props[key].([]bpv7.EndpointID)[w]) == sender.GetPeerEndpointID() && (forall j int :: 0 <= j && j < w ==> old(props[key].([]bpv7.EndpointID)[j]) != sender.GetPeerEndpointID()) ==> len(props[key].([]bpv7.EndpointID)) + 1 == old(len(props[key].([]bpv7.EndpointID)))
+//@ loop 0 invariant 0 <= i && i <= len(sentEids) && sameSlice(sentEids, old(props[key].([]bpv7.EndpointID)))
+//@ loop 0 invariant forall j int :: 0 <= j && j < i ==> sentEids[j] != sender.GetPeerEndpointID()
+//@ loop 0 invariant forall j int :: 0 <= j && j < len(sentEids) ==> sentEids[j] == old(props[key].([]bpv7.EndpointID)[j])
+//@ loop 0 decreases len(sentEids) - i
+
+// filterCLAs: the senders whose peer is not yet in the bundle's sent list, each peer once; the returned list is the
+// old sent list followed by the peers of the selected senders.
+// govc:spec sentOf(props map[string]interface{}, key string) []bpv7.EndpointID = props[key].([]bpv7.EndpointID)
+
+// govc:func filterCLAs property C13 C05
+//@ requires bundleItem.Properties != nil && forall k int :: 0 <= k && k < len(clas) ==> clas[k] != nil
+//@ let props := bundleItem.Properties
+//@ let key := "routing/" + algorithm + "/sent"
+//@ requires has(props, key) && is(props[key], []bpv7.EndpointID)
+//@ assigns nothing
+//@ ensures len(sentEids) == old(len(sentOf(props, key))) + len(filtered) && len(filtered) <= len(clas)
+//@ ensures forall j int :: 0 <= j && j < old(len(sentOf(props, key))) ==> sentEids[j] == old(sentOf(props, key)[j]) @thorough
+//@ ensures forall k int :: 0 <= k && k < len(filtered) ==> sentEids[old(len(sentOf(props, key))) + k] == filtered[k].GetPeerEndpointID() @thorough
+//@ ensures forall k, j int :: 0 <= k && k < len(filtered) && 0 <= j && j < old(len(sentOf(props, key))) ==> filtered[k].GetPeerEndpointID() != old(sentOf(props, key)[j]) @thorough
+//@ ensures forall k, l int :: 0 <= k && k < l && l < len(filtered) ==> filtered[k].GetPeerEndpointID() != filtered[l].GetPeerEndpointID() @thorough
+//@ loop 0 invariant 0 <= rangeindex + 1 && rangeindex + 1 <= len(clas) && len(filtered) <= rangeindex + 1
+//@ loop 0 invariant len(sentEids) == old(len(sentOf(props, key))) + len(filtered)
+//@ loop 0 invariant forall j int :: 0 <= j && j < old(len(sentOf(props, key))) ==> sentEids[j] == old(sentOf(props, key)[j]) @thorough
+//@ loop 0 invariant forall k int :: 0 <= k && k < len(filtered) ==> filtered[k] != nil && sentEids[old(len(sentOf(props, key))) + k] == filtered[k].GetPeerEndpointID() @thorough
+//@ loop 0 invariant forall k, j int :: 0 <= k && k < len(filtered) && 0 <= j && j < old(len(sentOf(props, key))) + k ==> filtered[k].GetPeerEndpointID() != sentEids[j] @thorough
+//@ loop 1 invariant 0 <= rangeindex + 1
+//@ loop 1 invariant forall j int :: 0 <= j && j < rangeindex + 1 ==> cs.GetPeerEndpointID() != sentEids[j] @thorough
